@@ -624,6 +624,13 @@ def _app_int(s):
     return parse_int(s)
 
 
+def _app_nested(s):
+    if len(s) > 0 and is_ascii_digit(s[0]):
+        return s
+    raise Bad()
+
+
+TABLE['vf.dtsupport.nested_conv'] = _app_nested
 TABLE['vf.dtsupport.remember_key'] = _app_key
 TABLE['vf.dtsupport.remember_int'] = _app_int
 
